@@ -106,6 +106,33 @@ def regenerate(repo, outdir):
     _write(os.path.join(outdir, 'Gen_zmatrix_c.v'),
            (HEADER % 'src/fqe/lib/fci_graph.c').replace('Import GenBase.', 'Import GenBase Addr GenLoops.') + text)
     res['Gen_zmatrix_c'] = {'leaves': status, 'ok': not text == ''}
+    # --- fqe/util.py: the swap-counting exchange sorts as compare-exchange programs
+    src = open(os.path.join(repo, 'src/fqe/util.py')).read()
+    text, status = '', {}
+    for fn in ('paritysort_list', 'reverse_bubble_list', 'bubblesort'):
+        try:
+            text += py2coq.translate_swap_sort(src, fn)
+            status[fn] = 'cxprog'
+        except py2coq.Unsupported as e:
+            status[fn] = 'unsupported: %s' % e
+    hdr = ('(* GENERATED from src/fqe/util.py by /verif/translate on every run -- do not edit *)\n'
+           'From Coq Require Import List Arith.\nFrom FQE Require Import CxProg.\nImport ListNotations.\n\n')
+    _write(os.path.join(outdir, 'Gen_util_sorts.v'), hdr + text)
+    res['Gen_util_sorts'] = {'leaves': status, 'ok': all(v == 'cxprog' for v in status.values())}
+    # --- fqe/_fqe_control.py: the multi-sector constructors (guard, loop, appended triples, broken symmetry)
+    src = open(os.path.join(repo, 'src/fqe/_fqe_control.py')).read()
+    text, status = '', {}
+    for fn in ('get_number_conserving_wavefunction', 'get_spin_conserving_wavefunction'):
+        try:
+            text += py2coq.translate_param_ctor(src, fn)
+            status[fn] = 'ctor'
+        except py2coq.Unsupported as e:
+            status[fn] = 'unsupported: %s' % e
+    hdr = ('(* GENERATED from src/fqe/_fqe_control.py by /verif/translate on every run -- do not edit *)\n'
+           'From Coq Require Import ZArith List Bool.\nFrom FQE Require Import GenBase GenLoops.\nImport ListNotations.\n'
+           'Local Open Scope Z_scope.\n\n')
+    _write(os.path.join(outdir, 'Gen_control_ctors.v'), hdr + text)
+    res['Gen_control_ctors'] = {'leaves': status, 'ok': all(v == 'ctor' for v in status.values())}
     return res
 
 
